@@ -109,3 +109,43 @@ package memory
 //@   let other, e3 = (*MemoryBackend).ReadAssertions(s, ctx, store2, model2)
 //@   ensures @same got == as
 //@   ensures @isolated (store2 != store || model2 != model) ==> (other == before || (len(other) == 0 && len(before) == 0))
+
+// ------------------------------------------------------------------ C12: on_missing / on_duplicate and all-or-nothing
+//@ spec recMatches(t ref, obj string, rel string, user string) bool = t != nil && objectMatches(t, obj) && relationMatches(t, rel) && userMatches(t, user)
+
+//@ func find(records, tupleKey) (r)
+//@   property C12
+//@   option nosafety
+//@   modifies nothing
+//@   requires forall j int :: 0 <= j && j < len(records) ==> records[j] != nil
+//@   loop 0 invariant forall j int :: 0 <= j && j <= $idx ==> !recMatches(records[j], tupleKey.GetObject(), tupleKey.GetRelation(), tupleKey.GetUser())
+//@   ensures @present r != nil ==> recMatches(r, tupleKey.GetObject(), tupleKey.GetRelation(), tupleKey.GetUser()) && (exists j int :: 0 <= j && j < len(records) && records[j] == r)
+//@   ensures @absent r == nil ==> forall j int :: 0 <= j && j < len(records) ==> !recMatches(records[j], tupleKey.GetObject(), tupleKey.GetRelation(), tupleKey.GetUser())
+
+// the whole request is refused (nothing is returned for the apply step) unless every delete of a missing tuple is
+// covered by on_missing=ignore and every write of an existing tuple is covered by on_duplicate=ignore with the same
+// condition name and context
+//@ func sanitizeTuplesWriteDelete(records, deletes, writes, opts) (dd, dw, err)
+//@   property C12
+//@   option nosafety
+//@   modifies nothing
+//@   requires forall j int :: 0 <= j && j < len(records) ==> records[j] != nil
+//@   loop 0 invariant forall j int :: 0 <= j && j <= $idx ==> ((forall k int :: 0 <= k && k < len(records) ==> !recMatches(records[k], deletes[j].GetObject(), deletes[j].GetRelation(), deletes[j].GetUser())) ==> opts.OnMissingDelete == storage.OnMissingDeleteIgnore)
+//@   loop 1 invariant forall j int :: 0 <= j && j <= $idx ==> ((exists k int :: 0 <= k && k < len(records) && recMatches(records[k], writes[j].GetObject(), writes[j].GetRelation(), writes[j].GetUser())) ==> opts.OnDuplicateInsert == storage.OnDuplicateInsertIgnore)
+//@   ensures @missingDeletes err == nil ==> forall j int :: 0 <= j && j < len(deletes) ==> ((forall k int :: 0 <= k && k < len(records) ==> !recMatches(records[k], deletes[j].GetObject(), deletes[j].GetRelation(), deletes[j].GetUser())) ==> opts.OnMissingDelete == storage.OnMissingDeleteIgnore)
+//@   ensures @duplicateWrites err == nil ==> forall j int :: 0 <= j && j < len(writes) ==> ((exists k int :: 0 <= k && k < len(records) && recMatches(records[k], writes[j].GetObject(), writes[j].GetRelation(), writes[j].GetUser())) ==> opts.OnDuplicateInsert == storage.OnDuplicateInsertIgnore)
+//@   ensures @failClosed err != nil ==> len(dd) == 0 && len(dw) == 0
+
+// "either applies all ... or changes nothing": a refused request leaves every store's tuples and changelog as they were
+//@ func (*MemoryBackend).Write(s, ctx, store, deletes, writes, opts) (err)
+//@   property C12 C16
+//@   option nosafety
+//@   requires s != nil
+//@   requires @noNilRecords forall j int :: 0 <= j && j < len(s.tuples[store]) ==> s.tuples[store][j] != nil
+//@   ensures @refusedChangesNothing err != nil ==> forall k string :: (inDom(s.tuples, k) <==> old(inDom(s.tuples, k))) && s.tuples[k] == old(s.tuples[k]) && (inDom(s.changes, k) <==> old(inDom(s.changes, k))) && s.changes[k] == old(s.changes[k])
+//@   ensures @validatedFirst err == nil ==> sanitized && sanErr == nil
+//@   monitor validateThenApply
+//@     ghost sanitized = false
+//@     ghost sanErr error = nil
+//@     before call memory.sanitizeTuplesWriteDelete args recs, dels, wrs, o : assert recs == s.tuples[store] && dels == deletes && wrs == writes
+//@     after call memory.sanitizeTuplesWriteDelete returning a, b, e : sanitized = true ; sanErr = e
